@@ -132,6 +132,17 @@ def run_case(case):
     if d["a"]:
         variant(a=[(dict(d["a"][0][0]), d["a"][0][1] + 1)] + d["a"][1:])
     variant(g=list(reversed(d["g"])))
+    # the same contract with a zero bound written as -0.0 (the string parser produces it), in the guarantees and in the assumptions
+    if d["g"][0][1] == 0:
+        variant(g=[(dict(d["g"][0][0]), -0.0)] + d["g"][1:])
+    if d["inv"]:
+        z_pos = {**d, "a": d["a"] + [({d["inv"][0]: 1}, 0.0)]}
+        z_neg = {**d, "a": d["a"] + [({d["inv"][0]: 1}, -0.0)]}
+        for dd_ in (z_pos, z_neg):
+            try:
+                objs.append(gen.mk_contract(dd_))
+            except ValueError:
+                pass
     # a variable moved across the input / output boundary, the concatenation of the two lists unchanged
     variant(inv=d["inv"][:-1], outv=[d["inv"][-1]] + d["outv"])
     variant(inv=d["inv"] + [d["outv"][0]], outv=d["outv"][1:])
